@@ -7,7 +7,7 @@ from checks import widepart
 
 PACK_INV = ['MachineEqualsLayout', 'LengthIsCeil8', 'EachFieldAtItsOffset', 'AlignedOnByteBoundary', 'PaddingIsZero',
             'LittleIsByteReversed', 'Emit']
-ENC_INV = ['GroupsInOrder', 'ReverseTouchesOnlyItsGroup', 'SizeIsReserved', 'Emit']
+ENC_INV = ['GroupsInOrder', 'ReverseTouchesOnlyItsGroup', 'SizeIsReserved', 'AddressRelativeRoundTrip', 'Emit']
 
 
 def pack_batch(items):
@@ -49,6 +49,31 @@ def enc_eval(e):
     isa, stmt, kinds = isagen.encode_isa(lay, e.get('variant', 0))
     n = len(exp)
     res = []
+    if any(k.startswith('relative_address') or k == 'address(slice)' for k in kinds):
+        # address-relative operands: the statement names the target the specification computed for each of the two own addresses
+        for addr, tg in zip(e['pl'], e['t']):
+            text = stmt
+            for k, t in enumerate(tg):
+                text = text.replace('{T%d}' % k, ('lbl%d' % k) if (e.get('variant', 0) + k) % 3 == 0 else str(t))
+            labs = ''.join(f'lbl{k} = {t}\n' for k, t in enumerate(tg))
+            src = f'{labs}.org {addr - 3}\n.byte 1, 2, 3\n{text}\npad\n'
+            case = {'config': isa, 'files': {'main.asm': src}, 'start': addr, 'end': addr + n - 1}
+            obs = runner.run_case(case)
+            if obs['status'] != 'ok':
+                return {'mismatch': f'"{text}" ({kinds}) at {addr} rejected: {(obs.get("msg") or "")[:150]}', 'case': case}
+            if obs['image'] != exp:
+                return {'mismatch': f'"{text}" ({kinds}) at {addr}: bytes {obs["image"].hex()}, layout prescribes {exp.hex()}', 'case': case}
+            # the same statement as the middle step of a macro (other steps before and after it): same own address, same bytes
+            import yaml
+            cfgd = yaml.safe_load(isa)
+            cfgd['macros'] = {'wrapm': [{'instructions': ['pad', text, 'pad', 'pad']}]}
+            case = {'config': isagen.dump(cfgd), 'files': {'main.asm': f'{labs}.org {addr - 1}\nwrapm\npad\n'}, 'start': addr, 'end': addr + n - 1}
+            obs = runner.run_case(case)
+            if obs['status'] != 'ok':
+                return {'mismatch': f'"{text}" ({kinds}) at {addr} as a macro step rejected: {(obs.get("msg") or "")[:150]}', 'case': case}
+            if obs['image'] != exp:
+                return {'mismatch': f'"{text}" ({kinds}) at {addr} as a macro step: bytes {obs["image"].hex()}, layout prescribes {exp.hex()}', 'case': case}
+        return None
     # second placement: other address, other surrounding program, numbers written as constants, and an earlier statement that
     # differs from the one under test only in the letter case of those constant names (and so in its operand values)
     nums = sorted(set(re.findall(r'(?<![\w$])\d+(?![\w])', stmt)), key=lambda x: -len(x))
@@ -93,7 +118,7 @@ def run(chk):
                 '(c) seeded random field lists with widths 1..64 and arbitrary values (boundary-biased) are packed by the real code and each record is validated by spec/Trace_Pack.tla, which works on bit strings only (no 32-bit limit). (d) with the pack hook on, every distinct instruction encoding of the repository programs (real ISAs: 8085-like, SAP-1, KENBAK-1, Minimal 64/64x4/CPU with all their operand types) is validated the same way. Non-trivial = distinct field list / layout with at least two fields.')
     chk.assumptions = ['little-endian for a width that is not a multiple of 8: bytes least-significant first, the last byte contributing its low (w mod 8) bits',
                        'within the prefix group the first operand code is nearest to the opcode (order of the pinned commit)',
-                       'each abstract operand is realised in rotation by register, enumeration, numeric_enumeration, numeric_bytecode, numeric, indirect_numeric, deferred_numeric, address, indirect_register with offset; relative_address and indexed registers are exercised by C12/C13']
+                       'each abstract operand is realised in rotation by register, enumeration, numeric_enumeration, numeric_bytecode, numeric, indirect_numeric, deferred_numeric, address, indirect_register with offset, indexed registers with composite codes; rel/relend/slice operands by relative_address (plain and curly-brace form, from start / from last byte) and sliced address, the statement placed at two own addresses (5000, 9041) with the targets Encode.tla computes (AddressRelativeRoundTrip), written as numbers or as constants']
     # (a)
     for widths, mf in ([('{1, 4, 8, 12}', 2), ('{3, 5, 8, 9, 16}', 2)] if quick else [('{1, 3, 4, 8, 12}', 3), ('{5, 9, 16}', 3)]):
         res = tlc.run_tlc('Pack', 'SPECIFICATION Spec\nCONSTANTS\n  Widths = %s\n  MaxFields = %d\n' % (widths, mf)
